@@ -29,155 +29,378 @@ fn key(i: usize) -> SchemaKey {
 	SchemaKey::from_idx(i)
 }
 
-/// The good graph, same schema as `SCHEMA_TEXT`, with every key passed through `f`.
-fn good_nodes(f: &dyn Fn(usize) -> usize) -> Vec<SchemaNode> {
-	let k = |i: usize| key(f(i));
-	vec![
-		SchemaNode::new(RegularType::Record(Record::new(
-			Name::from_fully_qualified_name("R"),
-			vec![RecordField::new("b", k(1)), RecordField::new("e", k(2)), RecordField::new("l", k(3)), RecordField::new("u", k(5))],
-		))),
-		SchemaNode::new(RegularType::String),
-		SchemaNode::new(RegularType::Enum(Enum::new(Name::from_fully_qualified_name("E"), vec!["X".to_owned(), "Y".to_owned()]))),
-		SchemaNode::new(RegularType::Array(Array::new(k(4)))),
-		SchemaNode::new(RegularType::Int),
-		SchemaNode::new(RegularType::Union(Union::new(vec![k(6), k(0)]))),
-		SchemaNode::new(RegularType::Null),
-	]
+/// Node description from which both the real graph and the generator's abstract graph are derived.
+#[derive(Clone, Debug, PartialEq)]
+pub enum Spec {
+	/// record `R` with fields b, e, l, u
+	RecR([usize; 4]),
+	/// record with the given name and fields f0, f1, ...
+	Rec(&'static str, Vec<usize>),
+	Str,
+	EnumE,
+	Arr(usize),
+	Map(usize),
+	Int,
+	Null,
+	Uni(Vec<usize>),
 }
 
-pub const DANGLING: usize = 1000;
+impl Spec {
+	pub fn node(&self) -> SchemaNode {
+		match self {
+			Spec::RecR(k) => SchemaNode::new(RegularType::Record(Record::new(
+				Name::from_fully_qualified_name("R"),
+				vec![RecordField::new("b", key(k[0])), RecordField::new("e", key(k[1])), RecordField::new("l", key(k[2])), RecordField::new("u", key(k[3]))],
+			))),
+			Spec::Rec(name, ks) => SchemaNode::new(RegularType::Record(Record::new(
+				Name::from_fully_qualified_name(*name),
+				ks.iter().enumerate().map(|(i, k)| RecordField::new(format!("f{i}"), key(*k))).collect(),
+			))),
+			Spec::Str => SchemaNode::new(RegularType::String),
+			Spec::EnumE => SchemaNode::new(RegularType::Enum(Enum::new(Name::from_fully_qualified_name("E"), vec!["X".to_owned(), "Y".to_owned()]))),
+			Spec::Arr(k) => SchemaNode::new(RegularType::Array(Array::new(key(*k)))),
+			Spec::Map(k) => SchemaNode::new(RegularType::Map(Map::new(key(*k)))),
+			Spec::Int => SchemaNode::new(RegularType::Int),
+			Spec::Null => SchemaNode::new(RegularType::Null),
+			Spec::Uni(ks) => SchemaNode::new(RegularType::Union(Union::new(ks.iter().map(|k| key(*k)).collect()))),
+		}
+	}
+	/// (is it a record?, keys held)
+	pub fn abs(&self) -> (bool, Vec<usize>) {
+		match self {
+			Spec::RecR(k) => (true, k.to_vec()),
+			Spec::Rec(_, ks) => (true, ks.clone()),
+			Spec::Arr(k) | Spec::Map(k) => (false, vec![*k]),
+			Spec::Uni(ks) => (false, ks.clone()),
+			_ => (false, vec![]),
+		}
+	}
+}
 
-/// A node that is not reachable from the root and holds a key pointing outside the graph.
-/// `valid` is a key of the graph that is in range (so that partially built vectors exist when the
-/// error return is taken).
-fn dangling_node(kind: char, valid: usize) -> SchemaNode {
-	match kind {
-		'A' => SchemaNode::new(RegularType::Array(Array::new(key(DANGLING)))),
-		'M' => SchemaNode::new(RegularType::Map(Map::new(key(DANGLING)))),
-		'U' => SchemaNode::new(RegularType::Union(Union::new(vec![key(valid), key(DANGLING)]))),
-		'R' => SchemaNode::new(RegularType::Record(Record::new(
-			Name::from_fully_qualified_name("Unreach"),
-			vec![RecordField::new("ok", key(valid)), RecordField::new("dangling", key(DANGLING))],
-		))),
+/// The good graph, same schema as `SCHEMA_TEXT` (and the same node order as the parser produces), with
+/// every key passed through `f`.
+fn good_spec(f: &dyn Fn(usize) -> usize) -> Vec<Spec> {
+	vec![Spec::RecR([f(1), f(2), f(3), f(5)]), Spec::Str, Spec::EnumE, Spec::Arr(f(4)), Spec::Int, Spec::Uni(vec![f(6), f(0)]), Spec::Null]
+}
+
+/// Graphs offered to `Build(j)`, all freezable. 0: the good graph. 1: + an EMPTY union that is not
+/// reachable from the root, stored right before the `["null","R"]` union. 2: + an unreachable empty
+/// union as last node. 3: + two unreachable empty unions in a row before the union. (0-3 describe the
+/// same schema on the wire.) 4: an empty union alone as root. 5: record Q{f0: [], f1: ["null","string"]}:
+/// a reachable empty union followed in node order by another union.
+pub const N_BUILDS: u8 = 6;
+pub fn build_spec(j: u8) -> Vec<Spec> {
+	let ins = |pos: usize, extra: Vec<Spec>| -> Vec<Spec> {
+		let n = extra.len();
+		let mut v = good_spec(&move |i| if i >= pos { i + n } else { i });
+		for (k, e) in extra.into_iter().enumerate() {
+			v.insert(pos + k, e);
+		}
+		v
+	};
+	match j {
+		0 => good_spec(&|i| i),
+		1 => ins(5, vec![Spec::Uni(vec![])]),
+		2 => ins(N_GOOD, vec![Spec::Uni(vec![])]),
+		3 => ins(5, vec![Spec::Uni(vec![]), Spec::Uni(vec![])]),
+		4 => vec![Spec::Uni(vec![])],
+		5 => vec![Spec::Rec("Q", vec![1, 2]), Spec::Uni(vec![]), Spec::Uni(vec![3, 4]), Spec::Null, Spec::Str],
+		_ => unreachable!(),
+	}
+}
+/// Does graph j describe the schema of `SCHEMA_TEXT` (so that the known answers apply)?
+pub fn build_wire_ok(j: u8) -> bool {
+	j <= 3
+}
+pub fn build_graph(j: u8) -> SchemaMut {
+	SchemaMut::from_nodes(build_spec(j).iter().map(|s| s.node()).collect())
+}
+pub fn describe_build(j: u8) -> &'static str {
+	[
+		"good graph",
+		"good graph + unreachable EMPTY union stored right before the [null,R] union",
+		"good graph + unreachable empty union as last node",
+		"good graph + two unreachable empty unions in a row before the [null,R] union",
+		"an empty union alone as root",
+		"record Q{f0: [], f1: [null,string]} (empty union followed in node order by another union)",
+	][j as usize]
+}
+
+/// Schema texts offered to `Parse(i)` / `ParseS(i)`, with the node structure the parser gives them
+/// (checked against the real parse result at run time).
+pub const N_TEXTS: u8 = 5;
+pub fn text(i: u8) -> &'static str {
+	match i {
+		0 => SCHEMA_TEXT,
+		1 => "[]",
+		2 => r#"{"type":"record","name":"Q","fields":[{"name":"z","type":[]},{"name":"u","type":["null","string"]}]}"#,
+		3 => r#"{"type":"record","name":"Q","fields":[{"name":"u","type":["null","string"]},{"name":"z","type":[]}]}"#,
+		4 => r#"{"type":"record","name":"Q","fields":[{"name":"y","type":[]},{"name":"z","type":[]},{"name":"u","type":["null","string"]}]}"#,
+		_ => unreachable!(),
+	}
+}
+pub fn text_abs(i: u8) -> Vec<(bool, Vec<usize>)> {
+	match i {
+		0 => good_spec(&|i| i).iter().map(|s| s.abs()).collect(),
+		1 => vec![(false, vec![])],
+		2 => vec![(true, vec![1, 2]), (false, vec![]), (false, vec![3, 4]), (false, vec![]), (false, vec![])],
+		3 => vec![(true, vec![1, 4]), (false, vec![2, 3]), (false, vec![]), (false, vec![]), (false, vec![])],
+		4 => vec![(true, vec![1, 2, 3]), (false, vec![]), (false, vec![]), (false, vec![4, 5]), (false, vec![]), (false, vec![])],
 		_ => unreachable!(),
 	}
 }
 
-/// Number of bad graphs: kinds x positions 1..=N_GOOD, plus the empty graph (last).
-pub const N_BAD: usize = BAD_KINDS.len() * N_GOOD + 1;
+/// SchemaMut prototypes parsed once per process and cloned (Miri runs: parsing is safe code and costs
+/// about 0.5 s per call there).
+pub struct Protos {
+	cache: std::cell::RefCell<Vec<Option<SchemaMut>>>,
+}
+impl Protos {
+	pub fn new() -> Protos {
+		Protos { cache: std::cell::RefCell::new((0..N_TEXTS).map(|_| None).collect()) }
+	}
+	pub fn get(&self, i: u8) -> Result<SchemaMut, ()> {
+		let mut c = self.cache.borrow_mut();
+		if c[i as usize].is_none() {
+			c[i as usize] = Some(text(i).parse::<SchemaMut>().map_err(|_| ())?);
+		}
+		Ok(c[i as usize].clone().unwrap())
+	}
+}
+impl Default for Protos {
+	fn default() -> Self {
+		Self::new()
+	}
+}
+
+/// A node that is not reachable from the root and holds the key `bad` pointing outside the graph.
+/// `valid` is a key of the graph that is in range (so that partially built vectors exist when the
+/// error return is taken).
+fn dangling_spec(kind: char, valid: usize, bad: usize) -> Spec {
+	match kind {
+		'A' => Spec::Arr(bad),
+		'M' => Spec::Map(bad),
+		'U' => Spec::Uni(vec![valid, bad]),
+		'R' => Spec::Rec("Unreach", vec![valid, bad]),
+		_ => unreachable!(),
+	}
+}
+
+/// Out-of-range keys tried: exactly the number of nodes (one past the end of the node storage), one
+/// more, and usize::MAX.
+pub const N_BAD_KEYS: usize = 3;
+pub fn bad_key(class: usize, len: usize) -> usize {
+	[len, len + 1, usize::MAX][class]
+}
+/// Number of dangling-key graphs: kinds x positions 1..=N_GOOD x key classes.
+pub const N_DANGLING: usize = BAD_KINDS.len() * N_GOOD * N_BAD_KEYS;
+/// Graphs whose only cycles go through unnamed nodes (freeze must return Err since D5 was fixed).
+pub const N_CYCLES: usize = 4;
+/// Bad graphs: dangling-key graphs, then the empty graph, then the unnamed cycles.
+pub const N_BAD: usize = N_DANGLING + 1 + N_CYCLES;
+pub const BAD_EMPTY: usize = N_DANGLING;
+
+/// (kind, position, key class) of dangling-key graph g
+pub fn bad_params(g: usize) -> (char, usize, usize) {
+	(BAD_KINDS[g / (N_GOOD * N_BAD_KEYS)], 1 + (g % (N_GOOD * N_BAD_KEYS)) / N_BAD_KEYS, g % N_BAD_KEYS)
+}
+/// index of the dangling-key graph with these parameters
+pub fn bad_index(kind: char, pos: usize, class: usize) -> u8 {
+	let k = BAD_KINDS.iter().position(|c| *c == kind).unwrap();
+	(k * N_GOOD * N_BAD_KEYS + (pos - 1) * N_BAD_KEYS + class) as u8
+}
 
 pub fn describe_bad(g: usize) -> String {
-	if g == N_BAD - 1 {
+	if g == BAD_EMPTY {
 		return "empty graph".to_owned();
 	}
-	let kind = BAD_KINDS[g / N_GOOD];
-	let pos = 1 + g % N_GOOD;
-	format!("good graph of {N_GOOD} nodes + unreachable node of kind {kind} with key {DANGLING} inserted at position {pos}")
+	if g > BAD_EMPTY {
+		return ["[array(items=#0)]", "[map(values=#0)]", "[array(items=#1), map(values=#0)]", "[record P{f0: #1}, array(items=#2), map(values=#1)]"][g - BAD_EMPTY - 1].to_owned() + " (cycle through unnamed nodes only)";
+	}
+	let (kind, pos, class) = bad_params(g);
+	let len = N_GOOD + 1;
+	format!("good graph + unreachable node of kind {kind} inserted at position {pos} ({len} nodes) holding key {}", ["len", "len+1", "usize::MAX"][class])
 }
 
-/// Bad graph number `g` (0-based).
+/// Bad graph number `g` (0-based): freeze must return Err.
 pub fn bad_graph(g: usize) -> SchemaMut {
 	assert!(g < N_BAD);
-	if g == N_BAD - 1 {
-		return SchemaMut::from_nodes(Vec::new());
-	}
-	let kind = BAD_KINDS[g / N_GOOD];
-	let pos = 1 + g % N_GOOD;
-	let shift = move |i: usize| if i >= pos { i + 1 } else { i };
-	let mut nodes = good_nodes(&shift);
-	// the valid key of the dangling node: the `int` node (wherever it ended up)
-	nodes.insert(pos, dangling_node(kind, shift(4)));
-	SchemaMut::from_nodes(nodes)
+	let spec: Vec<Spec> = if g == BAD_EMPTY {
+		Vec::new()
+	} else if g > BAD_EMPTY {
+		match g - BAD_EMPTY - 1 {
+			0 => vec![Spec::Arr(0)],
+			1 => vec![Spec::Map(0)],
+			2 => vec![Spec::Arr(1), Spec::Map(0)],
+			_ => vec![Spec::Rec("P", vec![1]), Spec::Arr(2), Spec::Map(1)],
+		}
+	} else {
+		let (kind, pos, class) = bad_params(g);
+		let shift = move |i: usize| if i >= pos { i + 1 } else { i };
+		let mut v = good_spec(&shift);
+		// the valid key of the dangling node: the `int` node (wherever it ended up)
+		v.insert(pos, dangling_spec(kind, shift(4), bad_key(class, N_GOOD + 1)));
+		v
+	};
+	SchemaMut::from_nodes(spec.iter().map(|s| s.node()).collect())
 }
 
-pub fn good_graph() -> SchemaMut {
-	SchemaMut::from_nodes(good_nodes(&|i| i))
+/// Key structure of a real graph: per node (is it a record?, the keys it holds, in order).
+pub fn keys_of(m: &SchemaMut) -> Vec<(bool, Vec<usize>)> {
+	m.nodes()
+		.iter()
+		.map(|n| match &n.type_ {
+			RegularType::Array(a) => (false, vec![a.items.idx()]),
+			RegularType::Map(a) => (false, vec![a.values.idx()]),
+			RegularType::Union(u) => (false, u.variants.iter().map(|k| k.idx()).collect()),
+			RegularType::Record(r) => (true, r.fields.iter().map(|f| f.type_.idx()).collect()),
+			_ => (false, vec![]),
+		})
+		.collect()
 }
+
+pub const DANGLING: usize = 1000;
 
 /// Edits of a live `SchemaMut` (through `nodes_mut()`). Returns false when the edit does not apply to
-/// the graph (no root record). No edit can create a cycle of unnamed nodes (defect D5 belongs to C19).
+/// the graph. No edit can create a cycle of unnamed nodes. `MState::edit` mirrors every edit.
 pub fn edit(m: &mut SchemaMut, e: u8) -> bool {
 	let nodes = m.nodes_mut();
+	let root_fields = |nodes: &mut Vec<SchemaNode>| -> Option<usize> {
+		match nodes.first().map(|r| &r.type_) {
+			Some(RegularType::Record(r)) if !r.fields.is_empty() => Some(r.fields.len()),
+			_ => None,
+		}
+	};
+	let set_field = |nodes: &mut Vec<SchemaNode>, f: usize, k: usize| {
+		if let Some(RegularType::Record(r)) = nodes.first_mut().map(|r| &mut r.type_) {
+			r.fields[f].type_ = key(k);
+		}
+	};
 	match e {
 		// two nodes that are unreachable from the root, the first holding a valid key to the second
 		// (on an emptied graph they become the schema map<int>)
 		0 => {
 			let n = nodes.len();
-			nodes.push(SchemaNode::new(RegularType::Map(Map::new(key(n + 1)))));
-			nodes.push(SchemaNode::new(RegularType::Int));
+			nodes.push(Spec::Map(n + 1).node());
+			nodes.push(Spec::Int.node());
 			true
 		}
-		// a node with a dangling key, appended: unreachable, so freeze fails with the node vector half
-		// written (on an emptied graph it becomes the root: rejected before the vector is allocated)
+		// an array node whose key is exactly the new number of nodes (one past the end of the node
+		// storage), appended: unreachable, so freeze fails with the node vector half written
 		1 => {
-			nodes.push(dangling_node('A', 0));
+			let n = nodes.len();
+			nodes.push(Spec::Arr(n + 1).node());
 			true
 		}
-		// retarget: field 0 of the root record now points at a new string node (same meaning, other graph)
-		2 => {
-			let n = nodes.len();
-			match nodes.first_mut().map(|r| &mut r.type_) {
-				Some(RegularType::Record(r)) if !r.fields.is_empty() => {
-					r.fields[0].type_ = key(n);
-					nodes.push(SchemaNode::new(RegularType::String));
-					true
-				}
-				_ => false,
-			}
-		}
-		// retarget to a dangling key in a REACHABLE node: rejected before the node vector is allocated
-		3 => match nodes.first_mut().map(|r| &mut r.type_) {
-			Some(RegularType::Record(r)) if !r.fields.is_empty() => {
-				r.fields[0].type_ = key(DANGLING);
+		// retarget: field 0 of the root record now points at a new string node
+		2 => match root_fields(nodes) {
+			Some(_) => {
+				let n = nodes.len();
+				set_field(nodes, 0, n);
+				nodes.push(Spec::Str.node());
 				true
 			}
-			_ => false,
+			None => false,
+		},
+		// retarget to a far dangling key in a REACHABLE node: rejected before the node vector is allocated
+		3 => match root_fields(nodes) {
+			Some(_) => {
+				set_field(nodes, 0, DANGLING);
+				true
+			}
+			None => false,
 		},
 		// remove every node
 		4 => {
 			nodes.clear();
 			true
 		}
+		// detach: the last field of the root record now points where field 0 points; what it pointed at
+		// (the [null,R] union of the good graph) is no longer reachable from the root
+		5 => match root_fields(nodes) {
+			Some(n) => {
+				let k0 = match &nodes[0].type_ {
+					RegularType::Record(r) => r.fields[0].type_.idx(),
+					_ => unreachable!(),
+				};
+				set_field(nodes, n - 1, k0);
+				true
+			}
+			None => false,
+		},
+		// pop the last node (after `detach` on the good graph: the null node, so that the unreachable
+		// union holds a key exactly equal to the new number of nodes)
+		6 => nodes.pop().is_some(),
 		_ => unreachable!(),
 	}
 }
-pub const N_EDITS: u8 = 5;
+pub const N_EDITS: u8 = 7;
 
-/// What the generator knows about a live `SchemaMut` (by construction of the graphs and edits, not by
-/// modelling the crate): enough to tell whether `freeze` is on its Ok or on its Err path.
-#[derive(Clone, Copy, Debug, PartialEq, Eq, Hash)]
+/// What the generator knows about a live `SchemaMut`, by construction of the graphs and edits (not by
+/// modelling the crate): its key structure. `freeze` is on its Ok path iff the graph is not empty and
+/// every key of every node (reachable or not) is in range.
+#[derive(Clone, Debug, PartialEq, Eq, Hash)]
 pub struct MState {
-	pub empty: bool,
-	pub root_record: bool,
-	pub dangling_pushed: bool,
-	pub field0_dangling: bool,
+	pub nodes: Vec<(bool, Vec<usize>)>,
+	/// still the schema of SCHEMA_TEXT on the wire (known answers apply)
+	pub wire_ok: bool,
 }
 impl MState {
-	pub fn fresh() -> MState {
-		MState { empty: false, root_record: true, dangling_pushed: false, field0_dangling: false }
+	pub fn parsed(i: u8) -> MState {
+		MState { nodes: text_abs(i), wire_ok: i == 0 }
+	}
+	pub fn built(j: u8) -> MState {
+		MState { nodes: build_spec(j).iter().map(|s| s.abs()).collect(), wire_ok: build_wire_ok(j) }
+	}
+	pub fn has_dangling_key(&self) -> bool {
+		let n = self.nodes.len();
+		self.nodes.iter().any(|(_, ks)| ks.iter().any(|k| *k >= n))
 	}
 	pub fn freezable(&self) -> bool {
-		!self.empty && !self.dangling_pushed && !self.field0_dangling
+		!self.nodes.is_empty() && !self.has_dangling_key()
+	}
+	fn root_fields(&self) -> Option<usize> {
+		match self.nodes.first() {
+			Some((true, ks)) if !ks.is_empty() => Some(ks.len()),
+			_ => None,
+		}
 	}
 	pub fn edit(&mut self, e: u8) {
+		let n = self.nodes.len();
 		match e {
-			0 => self.empty = false,
-			1 => {
-				self.empty = false;
-				self.dangling_pushed = true;
+			0 => {
+				self.nodes.push((false, vec![n + 1]));
+				self.nodes.push((false, vec![]));
 			}
+			1 => self.nodes.push((false, vec![n + 1])),
 			2 => {
-				if self.root_record {
-					self.field0_dangling = false;
+				if self.root_fields().is_some() {
+					self.nodes[0].1[0] = n;
+					self.nodes.push((false, vec![]));
 				}
 			}
 			3 => {
-				if self.root_record {
-					self.field0_dangling = true;
+				if self.root_fields().is_some() {
+					self.nodes[0].1[0] = DANGLING;
+					self.wire_ok = false;
 				}
 			}
-			4 => *self = MState { empty: true, root_record: false, dangling_pushed: false, field0_dangling: false },
+			4 => {
+				self.nodes.clear();
+				self.wire_ok = false;
+			}
+			5 => {
+				if let Some(f) = self.root_fields() {
+					let k0 = self.nodes[0].1[0];
+					self.nodes[0].1[f - 1] = k0;
+					self.wire_ok = false;
+				}
+			}
+			6 => {
+				self.nodes.pop();
+				// (a pop may remove a node the schema needs; freeze then fails, or the schema changes)
+				self.wire_ok = false;
+			}
 			_ => unreachable!(),
 		}
 	}
